@@ -181,13 +181,18 @@ def run(ctx) -> None:
             I.call_func(lc, [doc], {}, cfg, None, None)
             rng = I.call_func(gi, [Str.lit("valid_addr_range")], {}, cfg, None, None)
             if not isinstance(rng, Obj):
-                raise AnalysisError(f"the loaded valid_addr_range is {rng!r}")
+                I.run.user["not_loaded"] = repr(rng)
+                return NONE
             m = rng.cls.find_method("is_in_range")
             if m is None:
                 raise AnalysisError("anchor ValidAddrRange.is_in_range not found")
             return I.call_func(m, [T], {}, rng, None, None)
         tags = set()
         for p9 in I.explore(thunk9):
+            if p9.kind == "return" and "not_loaded" in p9.run.user:
+                ctx.fail("C18.V9.bounds-by-name", f"JASMConfig.load_config[{order[0]} written first]",
+                         f"get_info gives {p9.run.user['not_loaded']}", "a configured valid_addr_range is loaded into the config")
+                continue
             for k, val, _ in p9.conds:
                 if isinstance(k, tuple) and k[0] == "truth" and k[1] == "b" and "<=" in str(k[2]):
                     tags.add(str(k[2]).replace(" ", "").replace("?", ""))
@@ -205,14 +210,16 @@ def run(ctx) -> None:
         configured = "valid_addr_range" in s.cfg["config"]
         cons = [e.obj for e in s.path.events if e.kind == "construct" and e.cls == "CompleteConsumer"]
         obs = cons[-1].fields.get("instruction_observers") if cons else None
-        names = [o.cls.name for o in obs.items] if isinstance(obs, ListV) else []
+        from ..matchflow import observer_name, wrapped_observer
+        names = [observer_name(o) for o in obs.items] if isinstance(obs, ListV) else []
         ok = ("ValidAddrObserver" in names) == configured
         ctx.check(ok, "C18.V5.installed-iff-configured", "MasterOfPuppets.prepare_observers",
                   f"configured={configured} observers={names}", "the tagging observer is installed iff the rule has valid_addr_range")
         if configured:
             calls = [e for e in s.path.events if e.kind == "extern_call" and e.name.startswith("regex.")]
             st = Im.expr_of(calls[-1].kwargs.get("string")) if calls else ""
-            vo_objs = [o for o in obs.items if o.cls.name == "ValidAddrObserver"] if isinstance(obs, ListV) else []
+            vo_objs = [w for w in map(wrapped_observer, obs.items) if isinstance(w, Obj) and w.cls.name == "ValidAddrObserver"] \
+                if isinstance(obs, ListV) else []
             rng = vo_objs[0].fields.get("addr_range") if vo_objs else None
             rng_ok = isinstance(rng, Obj) and rng.cls.name == "ValidAddrRange"
             if st in ("", "''"):
